@@ -24,6 +24,7 @@ def run(ctx, chk, mod):
     if not files:
         raise AnalysisBroken("no self-test source for " + pid)
     n_pos = n_neg = 0
+    deferred = []
     cfgs = getattr(mod, "SELFTEST_CONFIGS", ["BASE"])
     for cfg in cfgs:
         base = ctx.program(cfg)
@@ -62,9 +63,30 @@ def run(ctx, chk, mod):
                 n_neg += 1
                 if fn.name in failed:
                     msgs = [r["message"] for r in dummy.violations if r["function"] == fn.name]
+                    macro_rules = set(norm(r) for r in getattr(mod, "MACRO_RULES", ()))
+                    if failed[fn.name] <= macro_rules:
+                        # the miniature uses /repo's own protocol macros: if they were edited the conforming
+                        # example legitimately fails.  Decided after the real analysis: the same rule must
+                        # then fail in the library too (a violation), otherwise the analysis is broken.
+                        for r in failed[fn.name]:
+                            deferred.append((r, fn.name, msgs[:1]))
+                        continue
                     raise AnalysisBroken("self-test: rule(s) %s fired on the conforming example %s (config %s): %s"
                                          % (sorted(failed[fn.name]), fn.name, cfg, msgs[:2]))
             elif fn.name in failed:
                 raise AnalysisBroken("self-test: unexpected failure in helper %s: %s" % (fn.name, sorted(failed[fn.name])))
     chk.note("self-tests: %d violating and %d conforming miniatures analysed first; every rule fired exactly where expected" % (n_pos, n_neg))
     chk.selftests = (n_pos, n_neg)
+    return deferred
+
+
+def settle(chk, deferred):
+    """after the real analysis: a conforming miniature may only have failed a
+    macro-level rule if the library fails the same rule"""
+    real = set(norm(r["rule"]) for r in chk.violations) | set(norm(r["rule"]) for r in chk.known_hits)
+    for rule, fname, msgs in deferred:
+        if rule not in real:
+            raise AnalysisBroken("self-test: rule %s fired on the conforming example %s (%s) but nowhere in the library" % (rule, fname, msgs))
+    if deferred:
+        chk.note("conforming miniatures %s failed macro-level rule(s) %s together with the library: the protocol macros themselves violate the rule" % (
+            sorted(set(f for _, f, _ in deferred)), sorted(set(r for r, _, _ in deferred))))
